@@ -29,6 +29,8 @@ def run(ck):
     ck.rule("C12.R2", "collector gone / lock poisoned => Err and the closure is not run", floor=1)
     ck.rule("C12.R3", "reload::Subscriber methods lock per call; no field caches the inner value", floor=20)
     ck.rule("C12.R4", "the rebuild covers every callsite and the max level", floor=2)
+    ck.rule("C12.R9", "concurrent reloads cannot leave log's max level stale: read-and-publish is serialised", floor=1)
+    ck.rule("C12.R10", "what a reload replaces holds no per-span state of its own: a value swapped in judges spans that were opened before the reload", floor=5)
     ck.rule("C12.R8", "a filter edited in place by modify keeps its cached max level an upper bound (DirectiveSet::add, as C08.R4): the rebuild publishes that hint", floor=1)
     ck.rule("C12.R7", "what a reload swaps in is what the stack consults: Layered re-derives a None layer's hint from the live value (as C08.R7)", floor=1)
     ck.rule("C12.R6", "the rebuild reaches every registered callsite: the lock-free list never loses a node (as C04.R3)", floor=5)
@@ -52,6 +54,7 @@ def run(ck):
             from rules import C08
             C08.r7(ck, F, rid="C12.R7")
             C08.directive_add_rule(ck, Facts("release"), rid="C12.R8")
+            r10(ck, F)
     ck.tag = ""
 
 
@@ -122,6 +125,38 @@ def r1_r2(ck, F):
         else:
             ck.bad("C12.R1", key, where(b.raw["sp"]), "log::set_max_level is skipped on some path that rebuilt the interest cache: log records the new filter "
                    "enables stay suppressed by a stale log::max_level()", fn=b.path)
+    if sets:
+        # read-current-then-publish is one step w.r.t. other reloads: on every path, at the call that reads
+        # LevelFilter::current() for the publish and at the publish itself a guard of one process-wide (static) mutex is
+        # held. Otherwise reload A may read the old maximum, reload B finish entirely, and A publish the old maximum last.
+        key = "modify: reading tracing's max level and publishing it to log happen under one static lock [%s]" % (ck.tag or "default")
+        why = []
+        n = 0
+        for p in PathEval(b).run():
+            if p.end != "return" or sets[0] not in p.blocks:
+                continue
+            n += 1
+            held = None          # value of the live guard
+            read_under = pub_under = False
+            for c in p.calls:
+                path = c[1].get("path", "")
+                args = [show(a) for a in c[2]] if len(c) > 2 else []
+                if c[1].get("method") == "lock" and "Mutex" in path and args and "::modify::" in args[0] and not args[0].startswith("arg"):
+                    held = "lock(%s" % args[0][:40]
+                elif path == "<drop>" and "MutexGuard" in str(c[1].get("drop_ty")):
+                    held = None
+                elif path == "core::mem::drop" and "MutexGuard" in " ".join(c[1].get("targs", [])):
+                    held = None
+                elif path.endswith("LevelFilter::current"):
+                    read_under = held is not None
+                elif path == "log::set_max_level":
+                    pub_under = held is not None and read_under
+            if not pub_under:
+                why.append("a path publishes log's max level %s" % ("without holding a static mutex" if not held and not read_under else "from a value read outside the lock"))
+        if n and not why:
+            ck.ok("C12.R9", key, fn=b.path, detail="%d path(s)" % n)
+        else:
+            ck.bad("C12.R9", key, where(b.raw["sp"]), "; ".join(sorted(set(why))) or "no publishing path", fn=b.path)
     if err_ok and err_seen == {"gone", "poisoned"}:
         ck.ok("C12.R2", "modify: dead collector -> CollectorGone, poisoned lock -> Poisoned, closure not run", fn=b.path)
     else:
@@ -197,3 +232,36 @@ def r4(ck, F):
             ck.ok("C12.R4", "rebuild_interest re-evaluates all callsites and sets the max level (details under C01.R5)", fn=ri.path)
         else:
             ck.bad("C12.R4", "rebuild_interest re-evaluates all callsites and sets the max level", where(ri.raw["sp"]), "calls: %s" % names)
+
+
+def r10(ck, F):
+    """Handle::reload replaces the whole value. Whatever the old value had learnt about spans that are still open is
+    gone unless it lives outside the value (the registry's per-span extensions) or is re-derived by the rebuild (tables
+    keyed by callsite: the rebuild calls register_callsite again). A table keyed by span id is neither: the new value
+    has never seen on_new_span for those ids, so an event inside such a span is judged as if the span did not match."""
+    seen = set()
+    for im in F.impls:
+        tr = im.get("trait") or ""
+        if not (tr.startswith(SUBSCRIBE) or tr.startswith(FILTER)):
+            continue
+        sh = im.get("self_shape") or {}
+        adt = sh.get("adt")
+        if sh.get("ctor") != "adt" or not adt or not adt.startswith("tracing_subscriber::") or adt in seen:
+            continue
+        seen.add(adt)
+        a = F.adts.get(adt)
+        if not a:
+            continue
+        hits = []
+        for v in a["variants"]:
+            for f in v["fields"]:
+                if "Map<tracing_core::span::Id" in f["ty"] or "Set<tracing_core::span::Id" in f["ty"]:
+                    hits.append(f["name"])
+        short = adt.split("::")[-1]
+        if hits:
+            for h in hits:
+                ck.bad("C12.R10", "%s.%s: a table keyed by span id lives in the value a reload replaces" % (short, h), a["span"],
+                       "after Handle::reload the new %s has no entry for spans opened earlier: events inside them are judged "
+                       "without their span directives until the span is re-created" % short)
+        else:
+            ck.ok("C12.R10", "%s keeps no table keyed by span id" % short, fn=adt)
